@@ -118,11 +118,15 @@ func (fr *Frame) applyContract(cx *callCtx, con *Contract) []Term {
 		vc.oblige(fr.oblName(fmt.Sprintf("call.%s.%d.pre.%s", lastTwo(cx.name), ord, clauseID(c, k))), "call-pre", cx.st.pc, g, c.Src)
 		vc.assumeIf(cx.st.pc, g)
 	}
+	for _, c := range con.RepInvs {
+		vc.assumeIf(cx.st.pc, env.evalBool(c.Expr))
+		vc.assumes["representation invariant of an encapsulated type assumed at call sites: "+c.Src] = true
+	}
 	// havoc what the callee may modify
 	if con.ModAll {
 		for c := range e.compSort {
 			if !strings.HasPrefix(c, "$") {
-				cx.st.heap[c] = vc.fresh("hv$"+c, e.compSort[c])
+				e.havocComp(cx.st, c)
 			}
 		}
 	} else if len(con.Modifies) > 0 {
@@ -164,6 +168,9 @@ func (fr *Frame) applyContract(cx *callCtx, con *Contract) []Term {
 	env.results = rs
 	env.st = cx.st
 	for _, c := range con.Ensures {
+		vc.assumeIf(cx.st.pc, env.evalBool(c.Expr))
+	}
+	for _, c := range con.RepInvs {
 		vc.assumeIf(cx.st.pc, env.evalBool(c.Expr))
 	}
 	return rs
@@ -289,6 +296,9 @@ func VerifyFunction(p *Program, cs *Contracts, fn *ssa.Function, con *Contract) 
 	for _, c := range con.Requires {
 		vc.assume(env.evalBool(c.Expr))
 	}
+	for _, c := range con.RepInvs {
+		vc.assume(env.evalBool(c.Expr))
+	}
 	for _, an := range con.Uses {
 		found := false
 		for _, ax := range cs.Axioms {
@@ -334,12 +344,18 @@ func VerifyFunction(p *Program, cs *Contracts, fn *ssa.Function, con *Contract) 
 		for _, r := range fr.rets {
 			env := fr.specEnvFor(r.st)
 			env.results = r.results
+			fr.curBlock, fr.curIdx = r.block, r.idx
+			fr.inLoopHdr = nil
 			cs = append(cs, implies(r.st.pc, f(env)))
 		}
 		return and(cs...)
 	}
 	for _, w := range con.Witness {
 		perRet(func(env *specEnv) Term { env.eval(w.Expr); return "true" }) // introduces witness terms and their (listed) axioms
+	}
+	for k, c := range con.RepInvs {
+		g := perRet(func(env *specEnv) Term { return env.evalBool(c.Expr) })
+		vc.oblige(fr.oblName("post.repinv."+clauseID(c, k)), "post", "true", g, "representation invariant re-established: "+c.Src)
 	}
 	for k, c := range con.Ensures {
 		id := clauseID(c, k)
